@@ -42,8 +42,9 @@ Models: `Model/{SkylineLU,Inverse,StaticMatrix,DenseCheck}.lean`, tied to the re
 
 Householder QR itself (the faithful model `Model/QR.lean`) is the subject of `Properties/C16b.lean`.
 
-What is **not** proved here (see `tools/checks/C16.json`, open items): Cuthill–McKee itself
-(V-grade: checker on the implementation's output for the explored inputs only), block-valued (`static_matrix` entries)
+Cuthill–McKee itself (faithful model `Model/CuthillMcKee.lean`) is the subject of `Properties/C16c.lean`.
+
+What is **not** proved here (see `tools/checks/C16.json`, open items): block-valued (`static_matrix` entries)
 skyline LU (correspondence only), CRS rows with repeated column indices (the constructor keeps the last one, the matrix
 denotes their sum: outside the claim), IEEE rounding.
 -/
@@ -246,9 +247,13 @@ section anyCarrier
 variable {V R : Type} [Zero V] [Zero R] [Mul V] [Sub V] [Sub R] [HMul V R R]
 
 /-- a zero first diagonal entry ends `factorize()` in the `precondition` outcome -/
-theorem skyline_zero_pivot_first (isZero : V → Bool) (inv : V → V) (S : Skyline V R)
+theorem skyline_zero_pivot_first (isZero : V → Bool) (inv : V → V) (S : Skyline V R) (hn : S.n ≠ 0)
     (h : isZero (S.D.getD 0 0) = true) : factorize isZero inv S = .precondition := by
-  unfold factorize; rw [if_pos h]
+  rw [factorize_of_pos hn, if_pos h]
+
+/-- an empty system: `factorize()` returns at once (`if (n == 0) return;`, fix of finding F42) -/
+theorem skyline_factorize_empty (isZero : V → Bool) (inv : V → V) (S : Skyline V R) (hn : S.n = 0) :
+    factorize isZero inv S = .ok S := factorize_empty hn
 
 /-- **zero pivot ⟹ `precondition`**: if iteration `k` of the main loop is reached and its pivot candidate
 `D[k+1] − Σ L[j]·U[j]` vanishes, the outcome of `factorize()` is `precondition`. -/
@@ -257,17 +262,17 @@ theorem skyline_zero_pivot (isZero : V → Bool) (inv : V → V) (S Sk : Skyline
     (hrun : factorLoop isZero inv { S with D := S.D.setIfInBounds 0 (inv (S.D.getD 0 0)) } k = .ok Sk)
     (hz : isZero (pivotSum (factorStepLU Sk k) k) = true) :
     factorize isZero inv S = .precondition := by
-  unfold factorize
+  rw [factorize_of_pos (by omega)]
   rw [if_neg (by rw [h0]; exact Bool.false_ne_true)]
   exact factorLoop_zero_pivot hk hrun hz
 
 /-- conversely, the `ok` outcome means that every pivot candidate passed the zero test -/
-theorem skyline_ok_pivots_nonzero (isZero : V → Bool) (inv : V → V) (S S' : Skyline V R)
+theorem skyline_ok_pivots_nonzero (isZero : V → Bool) (inv : V → V) (S S' : Skyline V R) (hn : S.n ≠ 0)
     (h : factorize isZero inv S = .ok S') :
     isZero (S.D.getD 0 0) = false ∧ ∀ k, k < S.n - 1 →
       ∃ Sk, factorLoop isZero inv { S with D := S.D.setIfInBounds 0 (inv (S.D.getD 0 0)) } k = .ok Sk ∧
         isZero (pivotSum (factorStepLU Sk k) k) = false := by
-  unfold factorize at h
+  rw [factorize_of_pos hn] at h
   split at h
   · exact absurd h (by simp)
   · rename_i h0
@@ -300,7 +305,7 @@ example : solve { exFac with y := (#[5, 7] : Array ℚ) } (#[1, 2] : Array ℚ) 
     = solve { exFac with y := (#[0, 0] : Array ℚ) } #[1, 2] #[9, 9] :=
   skyline_out_indep_scratch exFac #[1, 2] #[9, 9] #[5, 7] #[0, 0] exFac_wf rfl rfl
 
-example := skyline_ok_pivots_nonzero _ _ exRaw exFac ex_factorize
+example := skyline_ok_pivots_nonzero _ _ exRaw exFac (by decide) ex_factorize
 
 end skyline
 
